@@ -316,3 +316,305 @@ def simple_ids(nodes):
 
 def json_ids(nodes):
     return all(type(n) in (int, str) for n in nodes)
+
+
+# ======================================================================= C02: query battery
+UNKNOWN = ['__unknown__', ('__u__', 0)]
+
+
+def _pairs_counter(items, directed):
+    from collections import Counter
+    c = Counter()
+    for it in items:
+        u, v = it[0], it[1]
+        c[(u, v) if directed else frozenset((u, v))] += 1
+    return c
+
+
+def _edges_counter(edges, directed):
+    from collections import Counter
+    return Counter(((u, v) if directed else frozenset((u, v))) for u, v in edges)
+
+
+def check_queries(rec, prefix, G, M, nodes, ctx='', probes=None, nbunches=(), light=False):
+    """C02: every snapshot / flattened query of G vs networkx on the static graph of the model.
+    `nodes` is the universe (may contain ids that are not in G); nbunches are lists over
+    universe + UNKNOWN."""
+    import networkx as nx
+    import dynetx as dn
+    from collections import Counter
+    directed = G.is_directed()
+    probes = list(M.probes() if probes is None else probes)
+    known_nodes = list(M.nodes)
+    # iteration order of the graph itself (insertion order); decides which arcs the listed finding
+    # 'directed_backward_arc' concerns
+    okn, gn = safe(lambda: list(G.nodes()))
+    iter_order = [n for n in gn if n in M.nodes] if okn else known_nodes
+    P = prefix
+    res = [True]
+
+    foreign = not P.startswith('C02')
+
+    def chk(sub, ok, detail, known=None):
+        if foreign and not ok and known is not None and rec.all_known is not None \
+                and rec.all_known.find('C02.' + sub, known) is not None:
+            # a finding listed under C02 showing through a battery run for another property:
+            # excluded here (and counted), reported by the C02 check
+            rec.exclude('C02/' + known)
+            rec.sub[P + '.' + sub] = rec.sub.get(P + '.' + sub, 0) + 1
+            return True
+        r = rec.check(P + '.' + sub, ok, detail, known=known)
+        res[0] &= r
+        return r
+
+    def call(sub, fn, *a, **k):
+        ok, val = safe(fn, *a, **k)
+        if not ok:
+            chk(sub, False, lambda: '%s %s raised %r' % (ctx, sub, val))
+            return False, None
+        return True, val
+
+    def listed(x):
+        return list(x)
+
+    ts = [None] + probes
+    if light:
+        inhabited = [t for t in probes if M.count(t)]
+        ts = [None] + inhabited[:6] + ([probes[0], probes[-1]] if probes else [])
+    for t in ts:
+        S = M.static(t)
+        tag = '@none' if t is None else '@t'
+        c2 = '%s t=%r' % (ctx, t)
+        loops_here = (not directed) and any(u == v for u, v in S.edges())
+
+        # ---------------------------------------------------------------- interactions
+        def cmp_inter(sub, got_items, exp_edges, seq, extra=''):
+            good_shape = all(isinstance(it, tuple) and len(it) == 3 for it in got_items)
+            if not chk(sub, good_shape, lambda: '%s %s%s returned %r' % (c2, sub, extra, got_items)):
+                return
+            if t is not None:
+                chk(sub, all(it[2] == {'t': [t]} for it in got_items),
+                    lambda: '%s %s%s data dicts %r' % (c2, sub, extra, got_items))
+            got = _pairs_counter(got_items, directed)
+            exp = _edges_counter(exp_edges, directed)
+            if got == exp:
+                chk(sub, True, None)
+                return
+            kn = None
+            if directed and seq is not None:
+                pos = {n: i for i, n in enumerate(seq)}
+                dropped = Counter({(u, v): 1 for (u, v) in exp if u != v and v in pos and u in pos and pos[v] < pos[u]})
+                if dropped and got == exp - dropped:
+                    kn = 'directed_backward_arc'
+            chk(sub, False, lambda: '%s %s%s = %r, static graph has %r' % (c2, sub, extra, sorted(got.elements(), key=repr), sorted(exp.elements(), key=repr)), known=kn)
+
+        for name, fn in (('interactions', lambda **k: G.interactions(**k)),
+                         ('interactions_iter', lambda **k: listed(G.interactions_iter(**k))),
+                         ('dn.interactions', lambda **k: dn.interactions(G, **k))):
+            ok, items = call(name + tag, fn, t=t)
+            if ok:
+                cmp_inter(name + tag, items, S.edges(), iter_order)
+            if light:
+                break
+        for nb in nbunches:
+            seq = [n for n in nb if n in M.nodes]
+            exp_edges = list(S.edges(seq))
+            ok, items = call('interactions.nbunch' + tag, G.interactions, list(nb), t)
+            if ok:
+                cmp_inter('interactions.nbunch' + tag, items, exp_edges, seq, extra='(%r)' % (nb,))
+        if directed:
+            for name, fn, ed in (('in_interactions', G.in_interactions, S.in_edges), ('out_interactions', G.out_interactions, S.out_edges),
+                                 ('in_interactions_iter', lambda *a, **k: listed(G.in_interactions_iter(*a, **k)), S.in_edges),
+                                 ('out_interactions_iter', lambda *a, **k: listed(G.out_interactions_iter(*a, **k)), S.out_edges)):
+                if light and name.endswith('_iter'):
+                    continue
+                ok, items = call(name + tag, fn, t=t)
+                if ok:
+                    cmp_inter(name + tag, items, ed(), None)
+                for nb in nbunches:
+                    seq = [n for n in nb if n in M.nodes]
+                    ok, items = call(name + '.nbunch' + tag, fn, list(nb), t)
+                    if ok:
+                        cmp_inter(name + '.nbunch' + tag, items, list(ed(seq)), None, extra='(%r)' % (nb,))
+
+        # ---------------------------------------------------------------- neighbourhoods
+        for n in known_nodes:
+            if directed:
+                views = [('successors', G.successors, S.successors), ('predecessors', G.predecessors, S.predecessors),
+                         ('neighbors', G.neighbors, S.successors),
+                         ('successors_iter', lambda *a: listed(G.successors_iter(*a)), S.successors),
+                         ('predecessors_iter', lambda *a: listed(G.predecessors_iter(*a)), S.predecessors),
+                         ('neighbors_iter', lambda *a: listed(G.neighbors_iter(*a)), S.successors),
+                         ('dn.neighbors', lambda *a: dn.neighbors(G, *a), S.successors)]
+            else:
+                views = [('neighbors', G.neighbors, S.neighbors),
+                         ('neighbors_iter', lambda *a: listed(G.neighbors_iter(*a)), S.neighbors),
+                         ('dn.neighbors', lambda *a: dn.neighbors(G, *a), S.neighbors)]
+            if light:
+                views = views[:2]
+            for name, fn, ef in views:
+                ok, got = call(name + tag, fn, n, t)
+                if ok:
+                    got = list(got)
+                    exp = list(ef(n))
+                    chk(name + tag, Counter(got) == Counter(exp), lambda: '%s %s(%r) = %r, static graph gives %r' % (c2, name, n, got, exp))
+            ok, got = call('dn.all_neighbors' + tag, lambda: list(dn.all_neighbors(G, n, t)))
+            if ok:
+                exp = list(nx.all_neighbors(S, n))
+                chk('dn.all_neighbors' + tag, Counter(got) == Counter(exp), lambda: '%s dn.all_neighbors(%r) = %r, static graph gives %r' % (c2, n, got, exp))
+            ok, got = call('dn.non_neighbors' + tag, lambda: list(dn.non_neighbors(G, n, t)))
+            if ok:
+                exp1 = set(nx.non_neighbors(S, n))
+                exp2 = set(S.nodes()) - set(nx.all_neighbors(S, n)) - {n}
+                chk('dn.non_neighbors' + tag, len(got) == len(set(got)) and set(got) in (exp1, exp2),
+                    lambda: '%s dn.non_neighbors(%r) = %r, static graph gives %r (or %r counting predecessors as neighbours)' % (c2, n, got, exp1, exp2))
+            if directed and not light:
+                for m in known_nodes:
+                    ok, got = call('has_successor' + tag, G.has_successor, n, m, t)
+                    if ok:
+                        chk('has_successor' + tag, bool(got) == S.has_successor(n, m), lambda: '%s has_successor(%r, %r) = %r' % (c2, n, m, got))
+                    ok, got = call('has_predecessor' + tag, G.has_predecessor, n, m, t)
+                    if ok:
+                        chk('has_predecessor' + tag, bool(got) == S.has_predecessor(n, m), lambda: '%s has_predecessor(%r, %r) = %r' % (c2, n, m, got))
+
+        # ---------------------------------------------------------------- degrees
+        def deg_ok(n, got, kind='degree'):
+            if kind == 'in':
+                return got == S.in_degree(n)
+            if kind == 'out':
+                return got == S.out_degree(n)
+            d = S.degree(n)
+            if not directed and S.has_edge(n, n):
+                return got in (d, d - 1)      # loop counted twice (networkx) or once (docstring)
+            return got == d
+
+        dviews = [('degree', G.degree, 'degree'), ('degree_iter', lambda *a, **k: dict(G.degree_iter(*a, **k)), 'degree'),
+                  ('dn.degree', lambda *a, **k: dn.degree(G, *a, **k), 'degree')]
+        if directed:
+            dviews += [('in_degree', G.in_degree, 'in'), ('out_degree', G.out_degree, 'out'),
+                       ('in_degree_iter', lambda *a, **k: dict(G.in_degree_iter(*a, **k)), 'in'),
+                       ('out_degree_iter', lambda *a, **k: dict(G.out_degree_iter(*a, **k)), 'out')]
+        if light:
+            dviews = [v for v in dviews if not v[0].endswith('_iter') and not v[0].startswith('dn.')]
+        for name, fn, kind in dviews:
+            ok, got = call(name + tag, fn, t=t)
+            if ok:
+                good = isinstance(got, dict) and set(got) == set(known_nodes) and all(deg_ok(n, got[n], kind) for n in known_nodes)
+                chk(name + tag, good, lambda: '%s %s() = %r, static graph gives %r' % (
+                    c2, name, got, dict(getattr(S, {'degree': 'degree', 'in': 'in_degree', 'out': 'out_degree'}[kind])())))
+            for nb in nbunches:
+                seq = [n for n in nb if n in M.nodes]
+                ok, got = call(name + '.nbunch' + tag, fn, list(nb), t)
+                if ok:
+                    good = isinstance(got, dict) and set(got) == set(seq) and all(deg_ok(n, got[n], kind) for n in seq)
+                    chk(name + '.nbunch' + tag, good, lambda: '%s %s(%r) = %r' % (c2, name, nb, got))
+            if not name.endswith('_iter'):
+                for n in known_nodes[:3]:
+                    ok, got = call(name + '.single' + tag, fn, n, t)
+                    if ok:
+                        chk(name + '.single' + tag, (not isinstance(got, dict)) and deg_ok(n, got, kind),
+                            lambda: '%s %s(%r) = %r, static degree %r' % (c2, name, n, got, S.degree(n)))
+        if known_nodes:
+            ok, got = call('dn.degree_histogram' + tag, dn.degree_histogram, G, t)
+            if ok:
+                hs = []
+                for once in (False, True):
+                    degs = [S.degree(n) - (1 if (once and not directed and S.has_edge(n, n)) else 0) for n in known_nodes]
+                    cnt = Counter(degs)
+                    hs.append([cnt.get(i, 0) for i in range(max(cnt) + 1)])
+                chk('dn.degree_histogram' + tag, got in hs, lambda: '%s dn.degree_histogram = %r, static graph gives %r' % (c2, got, hs[0]))
+
+        # ---------------------------------------------------------------- nodes
+        if t is None:
+            exp_nodes = set(known_nodes)
+        else:
+            exp_nodes = {n for n in known_nodes if S.degree(n) > 0}
+        for name, fn in (('nodes', lambda: G.nodes(t=t)), ('nodes_iter', lambda: list(G.nodes_iter(t=t))), ('dn.nodes', lambda: dn.nodes(G, t))):
+            ok, got = call(name + tag, fn)
+            if ok:
+                got = list(got)
+                chk(name + tag, len(got) == len(set(got)) and set(got) == exp_nodes, lambda: '%s %s = %r, expected %r' % (c2, name, got, exp_nodes))
+        ok, got = call('nodes.data' + tag, lambda: G.nodes(t=t, data=True))
+        if ok:
+            exp = {n: M.nodes[n] for n in exp_nodes}
+            chk('nodes.data' + tag, isinstance(got, list) and len(got) == len(exp) and all(isinstance(x, tuple) and len(x) == 2 for x in got) and dict(got) == exp,
+                lambda: '%s nodes(data=True) = %r, expected %r' % (c2, got, exp))
+        for n in list(nodes) + UNKNOWN[:1]:
+            ok, got = call('has_node' + tag, G.has_node, n, t)
+            if ok:
+                chk('has_node' + tag, bool(got) == (n in exp_nodes), lambda: '%s has_node(%r) = %r, expected %r' % (c2, n, got, n in exp_nodes))
+        nviews = [('number_of_nodes', lambda: G.number_of_nodes(t)), ('dn.number_of_nodes', lambda: dn.number_of_nodes(G, t))]
+        if not directed:
+            nviews.append(('order', lambda: G.order(t)))
+        elif t is None:
+            nviews.append(('order', lambda: G.order()))
+        for name, fn in nviews:
+            ok, got = call(name + tag, fn)
+            if ok:
+                chk(name + tag, got == len(exp_nodes), lambda: '%s %s = %r, expected %r' % (c2, name, got, len(exp_nodes)))
+
+        # ---------------------------------------------------------------- sizes
+        m = S.number_of_edges()
+        if directed:
+            halved = m
+        else:
+            nloops = sum(1 for u, v in S.edges() if u == v)
+            halved = int((2 * (m - nloops) + nloops) / 2)
+        for name, fn in (('size', lambda: G.size(t)), ('number_of_interactions', lambda: G.number_of_interactions(t=t)),
+                         ('dn.number_of_interactions', lambda: dn.number_of_interactions(G, t=t))):
+            ok, got = call(name + tag, fn)
+            if ok:
+                kn = 'undirected_selfloop_present' if (loops_here and got == halved) else None
+                chk(name + tag, got == m and not isinstance(got, bool), lambda: '%s %s = %r, static graph has %r interactions' % (c2, name, got, m), known=kn)
+        if not light:
+            for u in known_nodes:
+                for v in known_nodes:
+                    exp = 1 if S.has_edge(u, v) else 0
+                    for name, fn in (('number_of_interactions.uv', lambda: G.number_of_interactions(u, v, t)),
+                                     ('dn.number_of_interactions.uv', lambda: dn.number_of_interactions(G, u, v, t))):
+                        ok, got = call(name + tag, fn)
+                        if ok:
+                            chk(name + tag, got == exp and got is not None, lambda: '%s %s(%r, %r) = %r, expected %r' % (c2, name, u, v, got, exp))
+        # density (docstring formula with n = number_of_nodes(t), m = number of interactions)
+        ok, got = call('dn.density' + tag, dn.density, G, t)
+        if ok:
+            n_ = len(exp_nodes)
+
+            def dens(mm):
+                if mm == 0 or n_ <= 1:
+                    return 0
+                dd = mm / (n_ * (n_ - 1))
+                return dd if directed else 2 * dd
+            exp = dens(m)
+            good = isinstance(got, (int, float)) and abs(got - exp) <= 1e-12
+            kn = None
+            if not good:
+                if t is not None and got == 0:
+                    kn = 't_is_not_none'
+                elif t is None and loops_here and abs(got - dens(halved)) <= 1e-12:
+                    kn = 'undirected_selfloop_present'
+            chk('dn.density' + tag, good, lambda: '%s dn.density = %r, formula gives %r (n=%d, m=%d)' % (c2, got, exp, n_, m), known=kn)
+        # non_interactions
+        ok, got = call('dn.non_interactions' + tag, lambda: list(dn.non_interactions(G, t)))
+        if ok:
+            if directed:
+                exp = Counter(nx.non_edges(S))
+                g2 = Counter(got)
+                chk('dn.non_interactions' + tag, g2 == exp, lambda: '%s dn.non_interactions = %r, static graph non-edges %r' % (c2, sorted(g2.elements(), key=repr), sorted(exp.elements(), key=repr)),
+                    known='directed_graph')
+            else:
+                exp = Counter(frozenset(p) for p in nx.non_edges(S))
+                g2 = Counter(frozenset(p) for p in got)
+                chk('dn.non_interactions' + tag, g2 == exp and all(len(p) == 2 for p in got),
+                    lambda: '%s dn.non_interactions = %r, static graph non-edges %r' % (c2, got, sorted(map(tuple, exp), key=repr)))
+    # ---------------------------------------------------------------- once per state
+    ok, got = call('dn.is_empty', dn.is_empty, G)
+    if ok:
+        chk('dn.is_empty', got is (len(M.orient) == 0), lambda: '%s dn.is_empty = %r with %d interactions' % (ctx, got, len(M.orient)))
+    ids = M.ids()
+    for n in known_nodes:
+        ok, got = call('get_node_snapshots', G.get_node_snapshots, n)
+        if ok:
+            exp = [t for t in ids if n in M.nodes_at(t)]
+            chk('get_node_snapshots', got == exp, lambda: '%s get_node_snapshots(%r) = %r, expected %r' % (ctx, n, got, exp))
+    return res[0]
